@@ -1,6 +1,6 @@
 (** Properties/C02.v — "The newest cross-reference entry for an object always wins".
     Only statements, each closed by [exact] of a lemma proved in XRef/. *)
-From PdfV Require Import Base.Prelude Gen.Generated XRef.Model XRef.Spec XRef.MergeProofs XRef.StreamProofs XRef.FrontProofs XRef.TableProofs.
+From PdfV Require Import Base.Prelude Gen.Generated XRef.Model XRef.Spec XRef.MergeProofs XRef.StreamProofs XRef.FrontProofs XRef.TableProofs XRef.At XRef.AtProofs Syn.Prim Syn.Parser Syn.Spells Syn.RenderProofs.
 Set Warnings "-notation-overridden".   (* also ends the import list for the dependency scanner of tools/vplib *)
 
 (** For every well-formed history, every subsection split of every update and every /Size (growing or not):
@@ -54,6 +54,68 @@ Print Assumptions C02_table_roundtrip.
 Theorem C02_table_row_20 : forall e el, row_fits e -> lenN (print_row e el) = 20.
 Proof. exact print_row_len. Qed.
 Print Assumptions C02_table_row_20.
+
+(** One classic section as it stands in a file — the table in any layout of C02_table_roundtrip followed by the
+    trailer dictionary in ANY conforming spelling (Syn/Spells.v: the specification object of C03) and a tail the
+    parser cannot mistake for `stream` — is read back by read_xref_and_trailer_at: the sections, the dictionary,
+    and the lexer exactly behind the dictionary.  (Composition of the table reader with the shared parser model.) *)
+Theorem C02_section_roundtrip : forall (R : resolver) (L : layout) (secs : list section) (d : dict) its text tl p,
+  layout_ok L secs -> spells (PDict d) its -> vdepth (PDict d) <= MAX_DEPTH ->
+  renders its text tl -> tail_ok tl ->
+  exists p', p' + lenN tl = p + lenN (print_table_spec L secs) + lenN text /\
+    read_xref_and_trailer_at R (mkLx p (print_table_spec L secs ++ text)) = Ok (secs, d, mkLx p' tl).
+Proof. exact read_section_roundtrip. Qed.
+Print Assumptions C02_section_roundtrip.
+
+(** "read one section at a position" — the oracle [xref_at] of C02_walk_latest — for classic sections:
+    a premise about what the file CONTAINS at the position replaces the premise about what the oracle returns. *)
+Theorem C02_xref_at_section : forall (R : resolver) (tid : dict -> N) file pos secs d,
+  section_at file pos secs d -> xref_at_tables R tid file pos = Ok (secs, tinfo_of tid d).
+Proof. exact xref_at_section. Qed.
+Print Assumptions C02_xref_at_section.
+
+(** C02_walk_latest with the oracle discharged: a file that contains a /Prev chain of classic sections. *)
+Theorem C02_walk_latest_tables : forall (R : resolver) (tid : dict -> N) file start (h : history) secss q0 secs0 d0 older size fuel n,
+  Forall2 represents secss h -> wf_history h ->
+  map snd ((q0, secs0) :: older) = rev secss ->
+  section_at file (start + q0) secs0 d0 ->
+  t_size (tinfo_of tid d0) = Some size -> size <= xr_max_id ->
+  chain_at tid file start (t_prev (tinfo_of tid d0)) older -> NoDup (map fst older) ->
+  (forall q, In q (q0 :: map fst older) -> start + q < lenN file) -> lenN file < usize_max ->
+  (length older <= fuel)%nat -> n < size ->
+  exists t, read_xref_table_and_trailer (xref_at_tables R tid file) (lenN file) fuel start q0 = Ok (t, tid d0) /\
+            table_get t n = Ok (xent_opt (latest h n)).
+Proof. exact walk_latest_tables. Qed.
+Print Assumptions C02_walk_latest_tables.
+
+(** "read one object at a position" — the oracle [obj_at] of resolve_ref: `id gen obj value endobj` with the
+    value in any conforming spelling is read back as the value. *)
+Theorem C02_object_at : forall (R : resolver) allow file pos id gen v,
+  object_at file pos id gen v -> obj_at_parse R allow F_ANY file pos = Ok v.
+Proof. exact obj_at_object. Qed.
+Print Assumptions C02_object_at.
+
+(** C02_resolve_latest (DESIGN §9 C02) for classic-table files: open (header at 0, startxref, /Prev walk) and
+    resolve.  For every well-formed history written as a chain of classic sections, every number below /Size
+    resolves to the object stored by the most recent update that mentions it, to FreeObject when that update
+    freed it, to NullRef when no update mentions it; the trailer is the newest one.  No parser oracle is left;
+    the remaining premises describe the file: header at 0, the value of startxref as located (C17_locate_xref /
+    mode xr_locate), what stands at the positions the sections and the newest entries name. *)
+Theorem C02_resolve_latest : forall (R : resolver) (tid : dict -> N) allow (member : bytes -> prim -> N -> res prim)
+    file (h : history) secss q0 secs0 d0 older size,
+  Forall2 represents secss h -> wf_history h ->
+  map snd ((q0, secs0) :: older) = rev secss ->
+  starts_with xr_header file = true -> locate_xref_offset file = Ok q0 ->
+  section_at file q0 secs0 d0 -> t_size (tinfo_of tid d0) = Some size -> size <= xr_max_id ->
+  chain_at tid file 0 (t_prev (tinfo_of tid d0)) older -> NoDup (map fst older) ->
+  lenN file < usize_max ->
+  (forall n g pos, latest h n = Some (Direct g pos) -> exists v, object_at file pos n g v) ->
+  (forall n s i, latest h n <> Some (Compressed s i)) ->
+  exists t, load (xref_at_tables R tid) file = Ok (0, t, tid d0) /\
+    forall n fuel, n < size ->
+      stored file 0 n (latest h n) (resolve_ref prim (obj_at_parse R allow F_ANY) member (S fuel) file 0 t n).
+Proof. exact resolve_latest_tables. Qed.
+Print Assumptions C02_resolve_latest.
 
 (** Cross-reference streams: the section reader inverts the §7.5.8 printer for every /W with fields of
     0..8 bytes (w0 = 0: default type 1), one subsection … *)
